@@ -96,7 +96,7 @@ namespace opensmt {
           for (auto i = s_expr_n.children->begin(); i != s_expr_n.children->end(); i++)
               configs->push_back(new ConfValue(**i));
       }
-      else if (s_expr_n.getType() == SYM_T) {
+      else if (s_expr_n.getType() == SYM_T or s_expr_n.getType() == QSYM_T) {
           type   = O_SYM;
           strval = strdup(s_expr_n.getValue());
       }
@@ -138,7 +138,11 @@ namespace opensmt {
           type = O_ATTR;
           strval = strdup(s_expr_n.getValue());
       }
-      else assert(false); //Not implemented
+      else {
+          // Not implemented: keep the value well-defined
+          type = O_EMPTY;
+          strval = strdup("");
+      }
   }
 
   ConfValue::ConfValue(const ConfValue& other) {
